@@ -341,8 +341,39 @@ pub struct Listener {
     pub port: u16,
 }
 
+/// Listening sockets are POOLED and reused from exchange to exchange: every exchange on a listener of its own
+/// would leave thousands of ephemeral ports in TIME_WAIT per run, and a few runs in a row exhaust the port range
+/// (bind fails with EADDRINUSE). A pooled listener is drained of anything still queued before it is handed out.
+static POOL: std::sync::Mutex<Vec<TcpListener>> = std::sync::Mutex::new(Vec::new());
+
+fn drain(l: &TcpListener) {
+    let _ = l.set_nonblocking(true);
+    while let Ok((s, _)) = l.accept() {
+        drop(s);
+    }
+}
+
+impl Drop for Listener {
+    fn drop(&mut self) {
+        if let Ok(c) = self.listener.try_clone() {
+            drain(&c);
+            if let Ok(mut p) = POOL.lock() {
+                if p.len() < 256 {
+                    p.push(c);
+                }
+            }
+        }
+    }
+}
+
 impl Listener {
     pub fn bind() -> Listener {
+        if let Some(l) = POOL.lock().ok().and_then(|mut p| p.pop()) {
+            drain(&l);
+            if let Ok(a) = l.local_addr() {
+                return Listener { port: a.port(), listener: l };
+            }
+        }
         let listener = TcpListener::bind(("127.0.0.1", 0)).unwrap_or_else(|e| {
             eprintln!("MACHINERY-ERROR cannot bind a loopback listener: {}", e);
             std::process::exit(2)
